@@ -90,23 +90,41 @@ def lu (mag : K → Float) (a0 : Array K) (n : Nat) : Array K × Array Nat × K 
   let st := luLoop mag n n { a := a0, rowIndex := Array.range n, rowScale := rowScales mag a0 n, d := 1 }
   (st.a, st.rowIndex, st.d)
 
+/-- `s = s0; for (k = 0; k < cnt; ++k) s -= f(k);` -/
+def accSub (s0 : K) (f : Nat → K) : Nat → K
+  | 0 => s0
+  | k + 1 => accSub s0 f k - f k
+
+/-- forward substitution on column j of x (rows 0..cnt-1): `x[i][j] = rhs i − Σ_{k<i} a[i][k] x[k][j]` -/
+def fwdCol (a : Array K) (rhs : Nat → K) (m n j : Nat) : Nat → Array K → Array K
+  | 0, x => x
+  | i + 1, x =>
+    let x' := fwdCol a rhs m n j i x
+    x'.set! (i * n + j) (accSub (rhs i) (fun k => get a m i k * x'[k * n + j]!) i)
+
+/-- back substitution on column j of x (rows m-1 down to m-cnt): `x[i][j] = (x[i][j] − Σ_{k>i} a[i][k] x[k][j]) / a[i][i]` -/
+def backCol (a : Array K) (m n j : Nat) : Nat → Array K → Array K
+  | 0, x => x
+  | c + 1, x =>
+    let x' := backCol a m n j c x
+    let i := m - 1 - c
+    x'.set! (i * n + j)
+      (accSub x'[i * n + j]! (fun t => get a m i (i + 1 + t) * x'[(i + 1 + t) * n + j]!) (m - (i + 1)) / get a m i i)
+
+/-- columns 0..cnt-1 of the solution -/
+def solveCols (a : Array K) (rhs : Nat → Nat → K) (m n : Nat) : Nat → Array K → Array K
+  | 0, x => x
+  | j + 1, x => backCol a m n j m (fwdCol a (fun i => rhs i j) m n j m (solveCols a rhs m n j x))
+
 /-- `_vnacommon_mldivide`: X = A⁻¹ B, A m×m, B m×n. Returns (X, determinant). -/
-def mldivide (mag : K → Float) (a0 : Array K) (b : Array K) (m n : Nat) : Array K × K := Id.run do
-  let (a, rowIndex, d) := lu mag a0 m
-  let mut x : Array K := Array.replicate (m * n) (0 : K)
-  for j in [0:n] do
-    for i in [0:m] do
-      let mut s := b[rowIndex[i]! * n + j]!
-      for k in [0:i] do
-        s := s - get a m i k * x[k * n + j]!
-      x := x.set! (i * n + j) s
-    for ii in [0:m] do
-      let i := m - 1 - ii
-      let mut s := x[i * n + j]!
-      for k in [i+1:m] do
-        s := s - get a m i k * x[k * n + j]!
-      x := x.set! (i * n + j) (s / get a m i i)
-  return (x, d)
+def mldivide (mag : K → Float) (a0 : Array K) (b : Array K) (m n : Nat) : Array K × K :=
+  let r := lu mag a0 m
+  (solveCols r.1 (fun i j => b[r.2.1[i]! * n + j]!) m n n (Array.replicate (m * n) (0 : K)), r.2.2)
+
+/-- `_vnacommon_minverse` -/
+def minverse (mag : K → Float) (a0 : Array K) (n : Nat) : Array K × K :=
+  let r := lu mag a0 n
+  (solveCols r.1 (fun i j => if r.2.1[i]! == j then (1 : K) else 0) n n n (Array.replicate (n * n) (0 : K)), r.2.2)
 
 /-- `_vnacommon_mrdivide`: X = B A⁻¹, B m×n, A n×n -/
 def mrdivide (mag : K → Float) (b : Array K) (a0 : Array K) (m n : Nat) : Array K × K := Id.run do
@@ -124,24 +142,6 @@ def mrdivide (mag : K → Float) (b : Array K) (a0 : Array K) (m n : Nat) : Arra
       for k in [j+1:n] do
         s := s - get a n k j * x[i * n + rowIndex[k]!]!
       x := x.set! (i * n + rowIndex[j]!) s
-  return (x, d)
-
-/-- `_vnacommon_minverse` -/
-def minverse (mag : K → Float) (a0 : Array K) (n : Nat) : Array K × K := Id.run do
-  let (a, rowIndex, d) := lu mag a0 n
-  let mut x : Array K := Array.replicate (n * n) (0 : K)
-  for j in [0:n] do
-    for i in [0:n] do
-      let mut s : K := if rowIndex[i]! == j then 1 else 0
-      for k in [0:i] do
-        s := s - get a n i k * x[k * n + j]!
-      x := x.set! (i * n + j) s
-    for ii in [0:n] do
-      let i := n - 1 - ii
-      let mut s := x[i * n + j]!
-      for k in [i+1:n] do
-        s := s - get a n i k * x[k * n + j]!
-      x := x.set! (i * n + j) (s / get a n i i)
   return (x, d)
 
 end Libvna.LA
